@@ -5,6 +5,10 @@ package render
 // Contracts for the verification machinery in /verif (govc). Comment-only file:
 // compiled only with -tags verif, and even then it contains no code.
 
+// "tree": rendering never writes the compiled template, slices that existed before the
+// call, or the wiring of a trimWriter (C03).
+//@ macro tree = sameold("S$Val") && sameold("S$Str") && sameheap("F$render.trimWriter$w") && sameheap("F$render.SeqNode$Children") && sameheap("F$render.BlockNode$Body") && sameheap("F$render.BlockNode$Clauses") && sameheap("F$render.BlockNode$renderer") && sameheap("F$render.BlockNode$Token") && sameheap("F$render.TagNode$renderer") && sameheap("F$render.TagNode$Token") && sameheap("F$render.TextNode$Token") && sameheap("F$render.ObjectNode$Token") && sameheap("F$render.ObjectNode$expr") && sameheap("F$render.RawNode$slices")
+
 // ---- render.Context: the interface tag renderers program against ------------
 // Bindings() is the identity of the one variable map of the current render
 // (single-map discipline, C12); Get/Set are specified against that map.
@@ -33,20 +37,20 @@ package render
 //@ requires args: arg0 != nil
 //@ assigns *
 //@ ensures onlyw: forall(x, "Val", x != arg0 && x != wsink(arg0) && !newbuf(x) ==> wtotal(x) == old(wtotal(x)))
-//@ ensures tree: sameold("S$Val") && sameheap("F$render.trimWriter$w")
+//@ ensures tree: @tree
 //@ method RenderBlock
 //@ requires args: arg0 != nil && arg1 != nil
 //@ assigns *
 //@ ensures onlyw: forall(x, "Val", x != arg0 && x != wsink(arg0) && !newbuf(x) ==> wtotal(x) == old(wtotal(x)))
-//@ ensures tree: sameold("S$Val") && sameheap("F$render.trimWriter$w")
+//@ ensures tree: @tree
 //@ method InnerString
 //@ assigns *
 //@ ensures outputElsewhere: forall(x, "Val", !newbuf(x) ==> wtotal(x) == old(wtotal(x)))
-//@ ensures tree: sameold("S$Val") && sameheap("F$render.trimWriter$w")
+//@ ensures tree: @tree
 //@ method RenderFile
 //@ assigns *
 //@ ensures noOutput: forall(x, "Val", !newbuf(x) ==> wtotal(x) == old(wtotal(x)))
-//@ ensures tree: sameold("S$Val") && sameheap("F$render.trimWriter$w")
+//@ ensures tree: @tree
 //@ ensures one: result1 != nil ==> result0 == ""
 //@ method Evaluate
 //@ assigns nothing
@@ -65,13 +69,13 @@ package render
 //@ requires args: w != nil && ctx != nil
 //@ assigns *
 //@ ensures onlyw: forall(x, "Val", x != w && x != wsink(w) && !newbuf(x) ==> wtotal(x) == old(wtotal(x)))
-//@ ensures tree: sameold("S$Val") && sameheap("F$render.trimWriter$w")
+//@ ensures tree: @tree
 
 // ---- trimWriter (C13, C20, C05) ------------------------------------------------------
 // Abstract view: total(tw) = wtotal(tw.w) ++ tw.buf  (what the downstream writer has
 // accepted plus what is still buffered). A trimWriter never wraps another trimWriter.
 
-//@ typeinv render.trimWriter: self.w != nil && !is(self.w, *render.trimWriter) && wsink(box(self, *render.trimWriter)) == self.w
+//@ typeinv render.trimWriter: self.w != nil && !is(self.w, *render.trimWriter)
 
 //@ func (*render.trimWriter).TrimRight
 //@ props C13 C01
@@ -264,11 +268,11 @@ package render
 
 //@ interface render.Node
 //@ method render
-//@ requires args: valid(arg0)
+//@ requires args: valid(arg0) && valid(arg1)
 //@ assigns *
 //@ ensures sink: valid(arg0) && arg0.w == old(arg0.w)
 //@ ensures onlyw: forall(x, "Val", x != arg0.w && x != box(arg0, *render.trimWriter) && !newbuf(x) ==> wtotal(x) == old(wtotal(x)))
-//@ ensures tree: sameold("S$Val") && sameheap("F$render.trimWriter$w")
+//@ ensures tree: @tree
 
 //@ func (*render.TextNode).render
 //@ props C05 C13 C20 C07 C01
@@ -293,7 +297,7 @@ package render
 //@ at call WriteString #1: werr = result1
 //@ loop 1 invariant progress: count == _i && werr == nil && valid(w) && w.w == old(w.w)
 //@ loop 1 invariant onlyw: forall(x, "Val", x != w.w && x != box(w, *render.trimWriter) && !newbuf(x) ==> wtotal(x) == old(wtotal(x)))
-//@ loop 1 invariant tree: sameold("S$Val") && sameold("S$Str") && sameheap("F$render.trimWriter$w") && sameheap("F$render.RawNode$slices")
+//@ loop 1 invariant tree: @tree
 //@ ensures all: result == nil ==> count == old(len(n.slices))
 //@ ensures reported: werr != nil ==> result != nil
 //@ ensures ok: werr == nil ==> result == nil
@@ -313,6 +317,7 @@ package render
 //@ ensures ok: lerr == nil ==> result == nil
 
 //@ func (*render.SeqNode).render
+//@ requires ctxvalid: valid(ctx)
 //@ props C05 C20 C07 C01
 //@ panics nothing
 //@ requires args: valid(w)
@@ -323,12 +328,13 @@ package render
 //@ at call render #1: cerr = result
 //@ loop 1 invariant progress: count == _i && cerr == nil && valid(w) && w.w == old(w.w)
 //@ loop 1 invariant onlyw: forall(x, "Val", x != w.w && x != box(w, *render.trimWriter) && !newbuf(x) ==> wtotal(x) == old(wtotal(x)))
-//@ loop 1 invariant tree: sameold("S$Val") && sameheap("F$render.trimWriter$w")
+//@ loop 1 invariant tree: @tree
 //@ ensures all: result == nil ==> count == old(len(n.Children))
 //@ ensures firstError: cerr != nil ==> result == cerr
 //@ ensures ok: cerr == nil ==> result == nil
 
 //@ func (*render.TagNode).render
+//@ requires ctxvalid: valid(ctx)
 //@ props C07 C20 C01
 //@ panics nothing
 //@ requires args: valid(w)
@@ -342,6 +348,7 @@ package render
 //@ func (render.nodeContext).RenderSequence
 //@ props C20 C05 C01
 //@ panics nothing
+//@ requires ctxvalid: valid(c)
 //@ requires args: w != nil && (is(w, *render.trimWriter) ==> valid(as(w, *render.trimWriter))) && forall(k, 0, len(seq), seq[k] != nil)
 //@ ghost count Int = 0
 //@ ghost cerr Val = nil
@@ -351,7 +358,7 @@ package render
 //@ at call render #1: cerr = result
 //@ at call Flush #1: ferr = result1
 //@ loop 1 invariant progress: count == _i && cerr == nil && valid(tw)
-//@ loop 1 invariant tree: sameold("S$Val") && forall(k, 0, len(seq), seq[k] != nil)
+//@ loop 1 invariant tree: @tree && forall(k, 0, len(seq), seq[k] != nil)
 //@ ensures all: result == nil ==> count == len(seq)
 //@ ensures firstError: cerr != nil ==> result == cerr
 //@ ensures flushError: ferr != nil ==> result != nil
